@@ -20,6 +20,13 @@ Everything observable is recorded by `RecMemory` (a subclass that logs set_lock 
 with their results and the virtual instant) and by the scripted bodies (body_enter / body_exit / outcome).
 No uuid, address or float is ever compared: identifiers are mapped to activation numbers in order of first
 appearance.
+
+Purge sweeps are observed on the store itself, not on how the purge task is written: `RecMemory` derives from
+`memhist.observed_memory()` (its `store` reports every mutation); a mutation made by a task that is neither
+the harness's main task nor a scripted task is background activity and is logged as a `sweep` event (one
+event per run of background mutations not separated by any other event, with what was done to which key).
+A sweep that suspends part-way therefore appears as several `sweep` events with the scripted tasks' commands
+between them, exactly as it happened.
 """
 from __future__ import annotations
 
@@ -27,7 +34,7 @@ import asyncio
 import contextvars
 from typing import Any
 
-from . import vtime
+from . import memhist, vtime
 from .sched import TASK_ID, Sched, gated
 from .vtime import CLOCK, TICK
 
@@ -60,7 +67,7 @@ def keyname(k: int) -> str:
 
 
 def _mk_rec_class():
-    from cashews.backends.memory import Memory
+    Memory = memhist.observed_memory()
 
     class RecMemory(Memory):
         """logs the lock commands at the moment they execute (no suspension inside Memory's commands)"""
@@ -77,33 +84,29 @@ def _mk_rec_class():
             run = _current
             raw = self._raw_state(key)
             r = await super().set_lock(key, value, expire)
-            run.log("set_lock", key=key, tok=value, ttl=expire, res=r, raw=raw, sec=SEC.get())
+            if run is not None:
+                run.log("set_lock", key=key, tok=value, ttl=expire, res=r, raw=raw, sec=SEC.get())
             return r
 
         async def unlock(self, key, value):
             run = _current
             raw = self._raw_state(key)
             r = await super().unlock(key, value)
-            run.log("unlock", key=key, tok=value, res=r, raw=raw, sec=SEC.get())
+            if run is not None:
+                run.log("unlock", key=key, tok=value, res=r, raw=raw, sec=SEC.get())
             return r
 
         async def is_locked(self, key, wait=None, step=0.1):
             run = _current
             r = await super().is_locked(key, wait=wait, step=step)
-            run.log("probe", key=key, res=r)
+            if run is not None:
+                run.log("probe", key=key, res=r)
             return r
 
         async def ping(self, message=None):
-            _current.log("ping", msg=message, sec=SEC.get())
+            if _current is not None:
+                _current.log("ping", msg=message, sec=SEC.get())
             return await super().ping(message)
-
-        async def get(self, key, default=None):
-            run = _current
-            if run is not None and run.purge_task is not None and asyncio.current_task() is run.purge_task:
-                if run.last_sweep != (CLOCK.t, run.ncmd):
-                    run.log("sweep")
-                run.last_sweep = (CLOCK.t, run.ncmd)
-            return await super().get(key, default=default)
 
     return RecMemory
 
@@ -242,8 +245,9 @@ class Run:
         self.ncmd = 0
         self.version = 0
         self.last_fail: dict = {}
-        self.purge_task = None
-        self.last_sweep = None
+        self.main_task = None
+        self.last_sweep = None              # (instant, event count, the `sweep` event) of the latest background mutation
+        self.torn = False                   # the run is being torn down: nothing that happens now is an observation
         self.sched: LSched | None = None
         self.sec_counter = 0
         self.idents: set = set()
@@ -253,7 +257,21 @@ class Run:
         self.deco = None
 
     # ---- log ----------------------------------------------------------------------------------------
+    def _mutation(self, op, key, store):
+        """called by the observed store after every mutation (see memhist.LoggedStore)"""
+        if self.torn or self.backend is None or store is not self.backend.store:
+            return
+        if asyncio.current_task() is self.main_task or (TASK_ID.get() if self.gated else _TIMED_TASK.get()) is not None:
+            return                          # the harness itself / a scripted task inside a command
+        ls = self.last_sweep
+        if ls is None or ls[:2] != (CLOCK.t, self.ncmd):
+            self.log("sweep", task=None, did=[])
+            ls = self.last_sweep = (CLOCK.t, self.ncmd, self.events[-1])
+        ls[2]["did"].append([op, key])
+
     def log(self, ev: str, **kw):
+        if self.torn:
+            return
         self.ncmd += 1
         if self.ncmd > MAX_COMMANDS:
             raise Livelock(f"more than {MAX_COMMANDS} events")
@@ -296,7 +314,6 @@ class Run:
             self.api = backend
             self.deco = lambda **kw: decorators.locked(backend, prefix="locked", **kw)
         self.backend = backend
-        self.purge_task = getattr(backend, "_Memory__remove_expired_task", None)
         await asyncio.sleep(0)
 
     # ---- scripted programs --------------------------------------------------------------------------
@@ -407,6 +424,8 @@ class Run:
     async def main(self):
         global _current
         _current = self
+        memhist._ACTIVE = self
+        self.main_task = asyncio.current_task()
         loop = asyncio.get_running_loop()
         try:
             if self.gated:
@@ -447,6 +466,9 @@ class Run:
         except Livelock as exc:
             self.livelock = str(exc)
         finally:
+            # whatever still runs is cancelled by the teardown: its clean-up is not part of the observed run
+            self.torn = True
+            memhist._ACTIVE = None
             if self.backend is not None:
                 try:
                     await self.backend.close()
